@@ -33,10 +33,11 @@ def register2(E):
         x0 = deref(x)
         if isinstance(x0, It): return x0
         if isinstance(x0, Agg) and x0.ty and 'RangeInclusive' in x0.ty: return It('range', pos=x0.f[0], end=x0.f[1] + 1)
+        if isinstance(x0, Agg) and x0.ty and 'RangeFrom' in x0.ty: return It('range', pos=x0.f[0], end=float('inf'))
         if isinstance(x0, Agg) and x0.ty and 'Range' in x0.ty: return It('range', pos=x0.f[0], end=x0.f[1])
         if isinstance(x0, Agg) and x0.ty and x0.ty not in ('arr', 'tup') and 'Range' not in x0.ty and E._find_impl('next', 'Iterator', x0.ty, 1) is not None: return It('crate', obj=[x0])
         if isinstance(x0, HashTableM):
-            perms = list(itertools.permutations(range(len(x0.items)))); p = perms[E.choose(len(perms))]
+            p = E.pick_order(len(x0.items))
             return It('list', l=[Ref(x0.items[i][1], 0) for i in p], pos=0)
         l, lo, hi = sl(x0)
         if isinstance(x, Ref) or isinstance(x0, (SliceRef, Str)): return It('slice', l=l, pos=lo, end=hi)
@@ -157,7 +158,10 @@ def register2(E):
     def _(e, c, a): return a[0].f[0] if a[0].v == 'Some' else 0
 
     @R(r'^(smallvec::)?SmallVec::<.*>::inline_size$')
-    def _(e, c, a): return 0          # force the heap path of smallvec![..]: same observable value
+    def _(e, c, a):
+        mm = re.search(r'SmallVec::<\[.*; (\d+)\]>::inline_size$', c)
+        if not mm: raise EngineError('inline capacity of ' + c)
+        return int(mm.group(1))
     @R(r'^(std::ops::)?RangeInclusive::<.*>::new$')
     def _(e, c, a): return Agg([a[0], a[1]], 'std::ops::RangeInclusive')
     @R(r'^Vec::<.*>::extend_from_slice$')
